@@ -8,7 +8,7 @@ META = {
     "harness_bins": ["nkeval"],
     "extract": "C04.v",
     "technique": "Coq proofs: (spec) a contract attached by any operand of a merge chain stays attached and every attached contract holds of the exported value, duplicates are irrelevant; (mechanism) the model of contract_eq.rs is sound w.r.t. full unfolding and combine_dedup only drops contracts that have an equal one kept — with a refuted lemma for the pre-fix zip comparison. Tie: number of pending contracts after a merge on the real VM vs the extracted combine_dedup, traces of applied leaf contracts with and without deduplication, an independent reference outcome",
-    "level_text": "coq/Props/C04.v. Spec level (data-merge algebra, all well-formed trees, any chain length): C04_attached_by_either_operand / _through_chain (a contract attached to a field by any operand is attached in the result, whatever the operand's position), C04_attached_enforced (if export succeeds the exported value of the field satisfies every attached contract), C04_duplicates_irrelevant (+ union = concatenation as sets). Mechanism level (coq/Merge/CtrEq.v, a model of contract_eq.rs incl. environments, aliases, shadowing, gas, map_eq, contract_eq_fields, type_eq): C04_contract_eq_sound (answer true => the two contracts have equal full unfoldings, contract lists compared element by element AND by length) and C04_combine_dedup_sound; C04_prefix_zip_refuted shows the theorem fails for the code before fix 0d21c82. Tie: for generated pairs of contract lists (leaf predicates, aliases, alias chains, shadowed names, record contracts sharing prefixes, optional/open/priority differences) the real VM's number of pending contracts after `{x | ..} & {x | ..}` must be >= the extracted combine_dedup's (the code may be more conservative because its gas is global, never less); each program is also run with a value under export with std.trace in every leaf contract, with deduplication on and off (hook H3) and with operands swapped: same outcome, same set of applied leaf contracts, and the outcome predicted by an independent reference that knows each contract's denotation. Rich stream (checks/c04_rich.py, independent of the Coq model, direct oracle on the implementation): contracts from a grammar with a python denotation (Number/String/Bool, predicates, enums, Array C, {_ | C}, {_ : C}, closed/open record contracts with optional fields and several contracts per field, record types, Sequence/all_of, restricted any_of, depth <= 3) written in 21 syntactic presentations (inline, let alias, alias of alias, field alias, function application, let-bound constructor function, constructor over an alias, alias of a constructor over an inline literal, sub-contract alias, projection from a let-bound or field-bound record of contracts, record type field, shadowed name, let inside the annotation, parametrized contract / parametrized operand instantiated once or twice with equal or different arguments, and for pairs the same source text under two bindings of one identifier: let-bound factory instances, two let-blocks with a local alias, an alias re-bound between the definitions, optionally under Array/{_ | }/{_ : }; the let-bound contracts are optionally evaluated (std.seq) or applied to another value before they are attached) and attached in 22 contexts (merge in every position and grouping, record contract application, nested, piecewise, default/force override, value split over two operands, the same record merged twice, two contracts on the field - by two operands, stacked annotations, piecewise definitions, merge + contract application, Sequence/all_of - that are the same, another presentation, a near-copy differing in one check, or the same text/function with another binding/argument); the value is a member or a one-position mutant failing one check; the whole record is exported with deduplication on, off and with the operands reversed: accepted with exactly the value iff the denotation accepts it for every attached contract, else Blame+ (MissingDef for a field required by a record contract and absent). Late-value stream (same file): a record goes through a history of 1-3 record contracts (closed/open, listing or not the late fields, optional or required, contracts from the same grammar, possibly a default) applied by `|`, by Sequence/all_of or merged as plain operands, and of operands that define the late fields (normal/default/force priority, with or without their own contract, default of a further contract, `f | optional | C` declared in the literal), in every order, optionally one level down; reference = direct simulation of the language semantics: a closed contract rejects the fields present WHEN it is applied that it does not list (empty optional ones excepted), every contract attached to a field at any step holds of the field's final value, a field still undefined at the end is skipped iff optional. corpus/C04/rich.case pins the Nickel semantics the reference relies on. Two findings on the unchanged tree are labelled by an order-aware model of the empty optional fields a record contract leaves in the value (keys optional-field-counted-as-extra, optional-field-hides-missing-field); the reference itself stays the order-independent denotation.",
+    "level_text": "coq/Props/C04.v. Spec level (data-merge algebra, all well-formed trees, any chain length): C04_attached_by_either_operand / _through_chain (a contract attached to a field by any operand is attached in the result, whatever the operand's position), C04_attached_enforced (if export succeeds the exported value of the field satisfies every attached contract), C04_duplicates_irrelevant (+ union = concatenation as sets). Mechanism level (coq/Merge/CtrEq.v, a model of contract_eq.rs incl. environments, aliases, shadowing, gas, map_eq, contract_eq_fields, type_eq): C04_contract_eq_sound (answer true => the two contracts have equal full unfoldings, contract lists compared element by element AND by length) and C04_combine_dedup_sound; C04_prefix_zip_refuted shows the theorem fails for the code before fix 0d21c82. Tie: for generated pairs of contract lists (leaf predicates, aliases, alias chains, shadowed names, record contracts sharing prefixes, optional/open/priority differences) the real VM's number of pending contracts after `{x | ..} & {x | ..}` must be >= the extracted combine_dedup's (the code may be more conservative because its gas is global, never less); each program is also run with a value under export with std.trace in every leaf contract, with deduplication on and off (hook H3) and with operands swapped: same outcome, same set of applied leaf contracts, and the outcome predicted by an independent reference that knows each contract's denotation. Rich stream (checks/c04_rich.py, independent of the Coq model, direct oracle on the implementation): contracts from a grammar with a python denotation (Number/String/Bool, predicates, enums, Array C, {_ | C}, {_ : C}, closed/open record contracts with zero to three fields (field-less `{}` / `{..}`, optional fields only), optional fields and several contracts per field, record types, Sequence/all_of, restricted any_of, depth <= 3) written in 21 syntactic presentations (inline, let alias, alias of alias, field alias, function application, let-bound constructor function, constructor over an alias, alias of a constructor over an inline literal, sub-contract alias, projection from a let-bound or field-bound record of contracts, record type field, shadowed name, let inside the annotation, parametrized contract / parametrized operand instantiated once or twice with equal or different arguments, and for pairs the same source text under two bindings of one identifier: let-bound factory instances, two let-blocks with a local alias, an alias re-bound between the definitions, optionally under Array/{_ | }/{_ : }; the let-bound contracts are optionally evaluated (std.seq) or applied to another value before they are attached) and attached in 22 contexts (merge in every position and grouping, record contract application, nested, piecewise, default/force override, value split over two operands, the same record merged twice, two contracts on the field - by two operands, stacked annotations, piecewise definitions, merge + contract application, Sequence/all_of - that are the same, another presentation, a near-copy differing in one check, or the same text/function with another binding/argument); the value is a member or a one-position mutant failing one check; the whole record is exported with deduplication on, off and with the operands reversed: accepted with exactly the value iff the denotation accepts it for every attached contract, else Blame+ (MissingDef for a field required by a record contract and absent). Late-value stream (same file): a record goes through a history of 1-3 record contracts (closed/open, listing or not the late fields, optional or required, contracts from the same grammar, possibly a default) applied by `|`, by Sequence/all_of or merged as plain operands, and of operands that define the late fields (normal/default/force priority, with or without their own contract, default of a further contract, `f | optional | C` declared in the literal), in every order, optionally one level down; reference = direct simulation of the language semantics: a closed contract rejects the fields present WHEN it is applied that it does not list (empty optional ones excepted), every contract attached to a field at any step holds of the field's final value, a field still undefined at the end is skipped iff optional. The histories include field-less contracts (inline `{}` = the empty record type, aliased `{}` = the empty record contract, `{..}`), literals that define nothing, and a grid of a field-less contract alone / before / after a contract that lists the fields, applied before or after the values arrive. corpus/C04/rich.case pins the Nickel semantics the reference relies on. Two findings on the unchanged tree are labelled by an order-aware model of the empty optional fields a record contract leaves in the value (keys optional-field-counted-as-extra, optional-field-hides-missing-field); the reference itself stays the order-independent denotation.",
     "level_note": "Trusted: Coq kernel; extraction; nkeval; hook H3 (contract_eq answers false); the generator's translation of Nickel lets/aliases to model environments; the python reference outcome. Modelled not verified: contract_eq.rs (value-level: thunk indirections and physical equality are abstracted by opaque definition ids; gas per path instead of global). Builtin type contracts and Array/dict type annotations never compare equal in the implementation and are not in the generator.",
 }
 
